@@ -137,7 +137,10 @@ def work_hist(arg):
             ok_read = s["last"] == "0" and s["ferr"] == "0" and s["rclose"] == "1"
             res["outcomes"].add((h.split(",")[0][0], ok_read))
             bad = None
-            if ok_read and len(got) <= limit and got == content[:len(got)]:
+            after0 = limit + pb.chunks[chunk].ulen if chunk > 0 else 0
+            if ok_read and any(x[0] in "CS" for x in h.split(",")) and (got in content[after0:] or got in content[:limit]):
+                pass      # positioned behind the damaged chunk by a chunk request and read on to the end: nothing of it released
+            elif ok_read and len(got) <= limit and got == content[:len(got)]:
                 # the sequence ended before the damaged chunk was needed (a chunk request moved the context to the end of
                 # the data; files with the uncompressed-source flag have no data digest to fail at close): C15 makes no claim
                 pass
@@ -145,7 +148,10 @@ def work_hist(arg):
                 bad = "corrupted-chunk-read-with-success"
             elif len(got) > limit or got != content[:len(got)]:
                 after = limit + pb.chunks[chunk].ulen if chunk > 0 else 0
-                if not (recover and salvage_ok(got, content, limit, after)):
+                # a chunk request in the history leaves the stream positioned behind that chunk: the sequential read then
+                # delivers a contiguous piece of the content in front of or behind the damaged chunk - none of its bytes
+                repositioned = any(x[0] in "CS" for x in h.split(",")) and (got in content[after:] or got in content[:limit])
+                if not repositioned and not (recover and salvage_ok(got, content, limit, after)):
                     bad = "bytes-of-unverified-chunk-released-before-error"
             if bad:
                 res["viol"].append(({"check": "C15", "predicate": bad, "chunk": chunk_name(chunk), "history": "+".join(x[0] for x in h.split(","))},
